@@ -49,6 +49,12 @@ func c04ResolveBase(ref string) ([]byte, error) {
 		seed := int64(atoi(arg))
 		r := rand.New(rand.NewSource(seed))
 		d = genProgFile(r, 1+int(seed%3), 2+int(seed%37)).bytes
+	case 'E':
+		b, err := c04EncBase(int64(atoi(arg)))
+		if err != nil {
+			return nil, err
+		}
+		d = b
 	case 'G':
 		seed := int64(atoi(arg))
 		cc := &Ctx{R: rand.New(rand.NewSource(seed))}
@@ -485,52 +491,7 @@ func (m *c04M) step() string {
 		}
 		return "insert-child:" + c04TypeName(string(donor[4:8])) + ">" + c04TypeName(par)
 	case k < 80: // count fields
-		off := c04CountOffset(t.typ, m.buf[t.start:end])
-		if t.hl == 16 && off > 0 {
-			off += 8
-		}
-		tag := "count"
-		if off < 0 || off+4 > t.size || r.Intn(4) == 0 {
-			// generic: any aligned word near the start of the payload
-			maxw := (t.size - t.hl) / 4
-			if maxw > 16 {
-				maxw = 16
-			}
-			if maxw <= 0 {
-				return ""
-			}
-			off = t.hl + 4*r.Intn(maxw)
-			tag = "word"
-		}
-		v := c04BigCounts[r.Intn(len(c04BigCounts))]
-		if r.Intn(6) == 0 {
-			old := binary.BigEndian.Uint32(m.buf[t.start+off:])
-			v = old + uint32(r.Intn(5)) - 2
-		}
-		m.put32(t.start+off, v)
-		switch r.Intn(5) {
-		case 0: // announce a bigger box, ancestors too
-			inc := []int{4, 8, 12, 16, 1 << 16, 1 << 24}[r.Intn(6)]
-			m.setSize(t, t.size+inc)
-			if r.Intn(2) == 0 {
-				m.fixAncestors(bx, t, inc)
-			}
-			return tag + "-inflate-size"
-		case 1:
-			if v == 0 && tag == "count" {
-				cut := t.size - off - 4
-				if cut > 0 {
-					m.splice(t.start+off+4, cut, nil)
-					m.setSize(t, t.size-cut)
-					m.fixAncestors(bx, t, -cut)
-					return "count-zero-fit"
-				}
-			}
-		}
-		if v < 3 {
-			return tag + "-small"
-		}
-		return tag + "-big"
+		return m.countStep(bx, t)
 	case k < 86: // type change
 		var nt []byte
 		switch r.Intn(4) {
@@ -586,6 +547,68 @@ func (m *c04M) step() string {
 		}
 		return "bytes"
 	}
+}
+
+// countStep: count-field mutation of box t (table-driven count offset or a generic aligned word): the round huge values,
+// +-2 around the present value, and the values whose 32-bit product with an element size wraps to something that fits
+func (m *c04M) countStep(bx []rawBox, t rawBox) string {
+	r := m.r
+	end := t.start + t.size
+	off := c04CountOffset(t.typ, m.buf[t.start:end])
+	if t.hl == 16 && off > 0 {
+		off += 8
+	}
+	tag := "count"
+	if off < 0 || off+4 > t.size || r.Intn(4) == 0 {
+		// generic: any aligned word near the start of the payload
+		maxw := (t.size - t.hl) / 4
+		if maxw > 16 {
+			maxw = 16
+		}
+		if maxw <= 0 {
+			return ""
+		}
+		off = t.hl + 4*r.Intn(maxw)
+		tag = "word"
+	}
+	v := c04BigCounts[r.Intn(len(c04BigCounts))]
+	old := binary.BigEndian.Uint32(m.buf[t.start+off:])
+	wrap := false
+	switch r.Intn(6) {
+	case 0:
+		v = old + uint32(r.Intn(5)) - 2
+	case 1, 2:
+		// count * element size wraps 32 bits and fits what is there
+		v, _ = c04WrapCount(r, old, t.size-off-4)
+		wrap = true
+	}
+	m.put32(t.start+off, v)
+	if wrap {
+		return tag + "-wrap"
+	}
+	switch r.Intn(5) {
+	case 0: // announce a bigger box, ancestors too
+		inc := []int{4, 8, 12, 16, 1 << 16, 1 << 24}[r.Intn(6)]
+		m.setSize(t, t.size+inc)
+		if r.Intn(2) == 0 {
+			m.fixAncestors(bx, t, inc)
+		}
+		return tag + "-inflate-size"
+	case 1:
+		if v == 0 && tag == "count" {
+			cut := t.size - off - 4
+			if cut > 0 {
+				m.splice(t.start+off+4, cut, nil)
+				m.setSize(t, t.size-cut)
+				m.fixAncestors(bx, t, -cut)
+				return "count-zero-fit"
+			}
+		}
+	}
+	if v < 3 {
+		return tag + "-small"
+	}
+	return tag + "-big"
 }
 
 // resync repairs the cross-box links that gate deeper code after other mutations moved things: the saio offset that
@@ -802,10 +825,11 @@ var c04StructTypes = map[string]bool{"moov": true, "trak": true, "moof": true, "
 var c04Registered = map[string]bool{}
 
 type c04Gen struct {
-	c     *Ctx
-	seeds []c04Seed
-	types []string
-	bank  [][]byte
+	c        *Ctx
+	seeds    []c04Seed
+	encSeeds []c04Seed // the E: (library-encrypted) seeds among seeds
+	types    []string
+	bank     [][]byte
 }
 
 func (g *c04Gen) pickSeed() c04Seed {
@@ -990,7 +1014,15 @@ func genC04(c *Ctx) {
 			g.seeds = append(g.seeds, c04Seed{ref, d})
 		}
 	}
-	c.Note(fmt.Sprintf("seeds: %d repository files/variants, %d generated", nRepo, len(g.seeds)-nRepo))
+	for i := 0; i < c.N(18, 54); i++ {
+		// every clear source x {cenc 8-byte IV, cenc 16-byte IV, cbcs} (seed mod 9), then random fragment shapes
+		ref := fmt.Sprintf("E:%d", 9*(1+r.Intn(100000))+i%9)
+		if d, err := c04ResolveBase(ref); err == nil && len(d) <= c04MaxInput {
+			g.seeds = append(g.seeds, c04Seed{ref, d})
+			g.encSeeds = append(g.encSeeds, c04Seed{ref, d})
+		}
+	}
+	c.Note(fmt.Sprintf("seeds: %d repository files/variants, %d generated (%d of them encrypted through the library)", nRepo, len(g.seeds)-nRepo, len(g.encSeeds)))
 	rdr, _ := mp4.VerifDecoderKeys()
 	sort.Strings(rdr)
 	g.types = rdr
@@ -1029,7 +1061,7 @@ func genC04(c *Ctx) {
 	}
 	var confirm []c04Pending
 	confirmSeen := map[string]int{}
-	walkBudget := c.N(6000, 40000)
+	walkBudget := c.N(8000, 42000)
 	runRound := func(cases []c04Case) {
 		lines := make([]string, len(cases))
 		for i := range cases {
@@ -1040,6 +1072,9 @@ func genC04(c *Ctx) {
 		// model correspondence on a sample of this round's file-level inputs
 		var sample []string
 		for i, cs := range cases {
+			if strings.Contains(answers[i], " | ") {
+				continue // the worker reported a violation on this input: it is not decoded again outside the measured phases
+			}
 			if walkBudget > 0 && i%3 == 0 && (cs.kindTop() == "file" || len(cases) < 200) {
 				sample = append(sample, cs.line)
 				walkBudget--
@@ -1060,6 +1095,7 @@ func genC04(c *Ctx) {
 		cases = append(cases, c04Case{fmt.Sprintf("scen all:2 %d", i), "scenario: " + sc.name, "scenario", true, len(sc.data)})
 	}
 	runRound(cases)
+	c04SencSizeCorrespondence(c, workers)
 	// (b) whole-file mutations, (c) single boxes mutated, (d) synthetic boxes of every registered type; in rounds
 	total := c.N(300000, 2000000)
 	if v := atoi(os.Getenv("VERIF_C04_TOTAL")); v > 0 {
@@ -1076,8 +1112,10 @@ func genC04(c *Ctx) {
 			var cs c04Case
 			var ok bool
 			switch x := r.Intn(100); {
-			case x < 45:
+			case x < 42:
 				cs, ok = g.fileCase()
+			case x < 48:
+				cs, ok = g.countCase()
 			case x < 70:
 				cs, ok = g.boxCase()
 			case x < 90:
